@@ -63,10 +63,15 @@ def main():
 
     # ---------------- deductive units
     units = []
-    for modname, target in pd.get("contracts", []):
+    for entry in pd.get("contracts", []):
+        modname, target = entry[0], entry[1]
         cmod = importlib.import_module(modname)
         c = [x for x in cmod.CONTRACTS if x.name == target][0]
         labels = list(cmod.configs_for(c).keys()) if hasattr(cmod, "configs_for") else [""]
+        if len(entry) > 2 and entry[2] is not None:
+            keep = entry[2].get(a.tier, entry[2].get("quick")) if isinstance(entry[2], dict) else entry[2]
+            if keep is not None:
+                labels = [lb for lb in labels if lb in keep]
         only = os.environ.get("PYVC_ONLY")
         if only:
             labels = [lb for lb in labels if lb in only.split(",")]
